@@ -493,3 +493,10 @@ def run_shard(shard, ctx):
 
 def replay(case, ctx):
     run_case(case, ctx)
+
+
+def signature(case):
+    """triage aid (not used by the check): coarse input class of a case"""
+    kind, shp, ch, index, bare, vk = case
+    pat = tuple((t[0] + ("-" if t[0] == "s" and t[3] is not None and t[3] < 0 else "")) if isinstance(t, tuple) else ("int" if isinstance(t, int) else t) for t in index)
+    return (pat, bare, vk if isinstance(vk, str) else vk[0])
